@@ -58,16 +58,16 @@ class InputGen:
             ch = chans.pop()
             in_loop = r.random() < 0.2
             (loop_decl if in_loop else setup_lines).append(f'p{i} = Potentiometer("A{ch}")')
-            pots.append({"name": f"p{i}", "ch": ch})
+            pots.append({"name": f"p{i}", "ch": ch, "in_loop": in_loop})
         for i in range(r.choice([0, 1, 1, 2])):
             trig, echo = pins.pop(), pins.pop()
             in_loop = r.random() < 0.2
             form = r.choice([f"Ultrasonic({trig}, {echo})", f"Ultrasonic(trig={trig}, echo={echo})", f'Ultrasonic({trig}, {echo}, sensor="HC-SR04")'])
             (loop_decl if in_loop else setup_lines).append(f"u{i} = {form}")
-            sonars.append({"name": f"u{i}", "trig": trig, "echo": echo})
+            sonars.append({"name": f"u{i}", "trig": trig, "echo": echo, "in_loop": in_loop})
         if not (buttons or pots or sonars):
             setup_lines.append('p0 = Potentiometer("A0")')
-            pots.append({"name": "p0", "ch": 0})
+            pots.append({"name": "p0", "ch": 0, "in_loop": False})
         body: List[dict] = []
         for _ in range(r.randint(1, 8)):
             kinds = []
@@ -89,10 +89,12 @@ class InputGen:
                 body.append({"op": "sleep", "ms": r.choice([0, 1, 5, 20, 59, 60, 61, 100])})
         # also a measurement in setup sometimes (millis() may still be 0 there)
         setup_ops: List[dict] = []
-        if sonars and r.random() < 0.4:
-            setup_ops.append({"op": "sonar", "dev": r.choice(sonars)["name"]})
-        if pots and r.random() < 0.3:
-            setup_ops.append({"op": "pot", "dev": r.choice(pots)["name"]})
+        early_sonars = [s for s in sonars if not s["in_loop"]]
+        early_pots = [p for p in pots if not p["in_loop"]]
+        if early_sonars and r.random() < 0.4:
+            setup_ops.append({"op": "sonar", "dev": r.choice(early_sonars)["name"]})
+        if early_pots and r.random() < 0.3:
+            setup_ops.append({"op": "pot", "dev": r.choice(early_pots)["name"]})
         lines = handlers + setup_lines
         for op in setup_ops:
             lines.append(self._render(op))
